@@ -17,6 +17,7 @@ import SvgVerif.Model.Flatten
 import SvgVerif.Model.TransformParse
 import SvgVerif.Spec.Shapes
 import SvgVerif.Model.Doc
+import SvgVerif.Model.Intersect
 /-! Correspondence driver: one operation per input line, one canonical result per
 output line.  Run as `lake env lean --run Driver.lean < ops.txt`.  The Python
 harness feeds the same operations to the real svgpathtools code and diffs. -/
@@ -546,6 +547,75 @@ def runWAttrs (ws : List String) : String :=
     | none => "bad-args"
   | _ => "bad-args"
 
+/-! C11 / C12: intersection models -/
+def showPairs (l : List (Rat × Rat)) : String :=
+  " ; ".intercalate (l.map fun (a, b) => s!"{showRat a} {showRat b}")
+
+def ratLe (a b : Rat × Rat) : Bool := a.1 < b.1 || (a.1 == b.1 && a.2 ≤ b.2)
+
+def sortPairs (l : List (Rat × Rat)) : List (Rat × Rat) := (l.toArray.qsort (fun a b => ratLe a b && !(a == b))).toList
+
+def runLineLine (args : List String) : String :=
+  match parseRats? args with
+  | some [a, b, c, d, e, f, g, h] =>
+    showPairs (Intersect.lineLine (fun x => decide (sabs x ≤ (1 : Rat) / 100000000)) (a, b) (c, d) (e, f) (g, h))
+  | _ => "bad-args"
+
+def runHull (args : List String) : String :=
+  match (splitBar args).mapM (fun ws => parseRats? ws >>= pairUp) with
+  | some [sb, ob] => toString (Intersect.hullDisjoint sb ob)
+  | _ => "bad-args"
+
+def runBezLine (args : List String) : String :=
+  match splitBar args with
+  | [bs, ls, rs] =>
+    match parseRats? bs >>= pairUp, parseRats? ls, parseRats? rs with
+    | some pts, some [l0x, l0y, l1x, l1y, L], some roots =>
+      showPairs (sortPairs (Intersect.bezierByLine (fun t => Intersect.dcPoint t pts.length pts) (l0x, l0y) (l1x, l1y) L roots))
+    | _, _, _ => "bad-args"
+  | _ => "bad-args"
+
+def runBezInt (args : List String) : String :=
+  match splitBar args with
+  | [ps, b1, b2] =>
+    match parseRats? ps, parseRats? b1 >>= pairUp, parseRats? b2 >>= pairUp with
+    | some [tol, tolDeC, maxits], some c1, some c2 =>
+      let env : Intersect.Env (List (Rat × Rat)) Rat (Rat × Rat) :=
+        { bbox := Intersect.hullBox
+          halve := fun c => Intersect.dcSplit ((1 : Rat) / 2) c.length c
+          ceq := fun a b => a == b
+          point := fun t => Intersect.dcPoint t c1.length c1
+          close := fun p q => decide ((p.1 - q.1) * (p.1 - q.1) + (p.2 - q.2) * (p.2 - q.2) < tol * tol)
+          tolDeC := tolDeC }
+      match Intersect.bezierIntersections env 2 maxits.num.toNat c1 c2 with
+      | .ok out => "ok " ++ showPairs out
+      | .maxits => "maxits"
+    | _, _, _ => "bad-args"
+  | _ => "bad-args"
+
+def runPhase2t (args : List String) : String :=
+  match parseRats? args with
+  | some [pi, theta, delta, psi] =>
+    showRat (Intersect.phase2t (fun x => (x.floor : Rat)) pi 180 360 2 theta delta psi)
+  | _ => "bad-args"
+
+/-- pathint tolsq | fr1 | fr2 | lab1 | lab2 | hits (i j t1 t2 px py)* -/
+def runPathInt (args : List String) : String :=
+  match splitBar args with
+  | [[tolsq], f1, f2, l1, l2, hs] =>
+    match parseRat? tolsq, parseRats? f1, parseRats? f2, l1.mapM String.toNat?, l2.mapM String.toNat?, parseRats? hs with
+    | some tolsq, some f1, some f2, some l1, some l2, some hs =>
+      let rec hits : List Rat → List (Intersect.Hit Rat (Rat × Rat))
+        | i :: j :: t1 :: t2 :: px :: py :: r => ⟨i.num.toNat, j.num.toNat, t1, t2, (px, py)⟩ :: hits r
+        | _ => []
+      let close : Rat × Rat → Rat × Rat → Bool := fun p q =>
+        decide ((p.1 - q.1) * (p.1 - q.1) + (p.2 - q.2) * (p.2 - q.2) < tolsq)
+      let sh : Option Rat × Nat × Rat → String := fun (T, i, t) =>
+        (match T with | some T => showRat T | none => "none") ++ s!" {i} {showRat t}"
+      " ; ".intercalate ((Intersect.pathIntersect close f1 f2 l1 l2 (hits hs)).map fun (a, b) => sh a ++ " " ++ sh b)
+    | _, _, _, _, _, _ => "bad-args"
+  | _ => "bad-args"
+
 def handle (cmd : String) (args : List String) : String :=
   match cmd with
   | "polyroots01" =>
@@ -713,6 +783,12 @@ def handle (cmd : String) (args : List String) : String :=
   | "stall_buggy" => runStall true args
   | "cubcache" => runCubCache false args
   | "cubcache_buggy" => runCubCache true args
+  | "lineline" => runLineLine args
+  | "hull" => runHull args
+  | "bezline" => runBezLine args
+  | "bezint" => runBezInt args
+  | "phase2t" => runPhase2t args
+  | "pathint" => runPathInt args
   | "hist" => runHistory false args
   | "hist_buggy_setter" => runHistory true args
   | _ => "bad-op"
